@@ -261,13 +261,32 @@ def r32(ctx, repo, upd):
     def is_activity(v):
         v = expand_bool_locals(upd, v)
         return isinstance(v, ast.BoolOp) and any(
-            isinstance(c, ast.Compare) and is_cfg_sub(c.left, fstart)
-            for c in ast.walk(v))
+            isinstance(c, ast.Subscript) and is_cfg_sub(c, fstart)
+            and isinstance(c.ctx, ast.Load) for c in ast.walk(v))
     mbf = _assigned_from(upd, is_activity)
     if len(mbf) != 1:
         raise AnalysisError("Filter.update: activity predicate lost")
     mname, mnode = list(mbf.items())[0]
     mvalue = expand_bool_locals(upd, mnode.value)
+
+    # tolerance comparisons (np.isclose & co.) are not equality: model them
+    # as "equal or CLOSE" with CLOSE an unknown the evaluation ranges over
+    class _Tol(ast.NodeTransformer):
+        hit = False
+
+        def visit_Call(self, node):
+            self.generic_visit(node)
+            nm = (call_name(node) or "").split(".")[-1]
+            if nm in ("isclose", "allclose") and len(node.args) >= 2:
+                _Tol.hit = True
+                return ast.BoolOp(op=ast.Or(), values=[
+                    ast.Compare(left=node.args[0], ops=[ast.Eq()],
+                                comparators=[node.args[1]]),
+                    ast.Name(id="CLOSE", ctx=ast.Load())])
+            return node
+    _Tol.hit = False
+    mvalue = ast.fix_missing_locations(_Tol().visit(mvalue))
+    tolerant = _Tol.hit
 
     def res_active(node):
         if isinstance(node, ast.Subscript) and is_cfg_sub(node, fstart):
@@ -280,13 +299,15 @@ def r32(ctx, repo, upd):
         return None
     bad = []
     for env in orderings(["lo", "hi"]):
-        e = dict(env)
-        e["present"] = True
-        got = bool(eval_pred(mvalue, e, res_active))
-        want = env["lo"] != env["hi"]
-        if got != want:
-            bad.append((env, got))
-    e = {"lo": 0.0, "hi": 1.0, "present": False}
+        for close in ((False, True) if tolerant else (False,)):
+            e = dict(env)
+            e["present"] = True
+            e["CLOSE"] = close
+            got = bool(eval_pred(mvalue, e, res_active))
+            want = env["lo"] != env["hi"]
+            if got != want:
+                bad.append((dict(env, close_but_distinct=close), got))
+    e = {"lo": 0.0, "hi": 1.0, "present": False, "CLOSE": False}
     if eval_pred(mvalue, e, res_active):
         bad.append(("missing key", True))
     ctx.ob("R3.2", not bad,
@@ -1120,6 +1141,11 @@ def run(ctx):
 
 
 MUTANTS = [
+    ("range inactive when the bounds are merely close (seeded C03_12)", FILT,
+     ("                                and cfg_cur[fstart] != cfg_cur[fend])",
+      "                                and not np.isclose(cfg_cur[fstart],\n"
+      "                                                   cfg_cur[fend]))"),
+     "R3.2"),
     ("bounding-box short-cut before the inversion (seeded C15_9)", POLY,
      ("        f = points_in_poly(points=points, verts=self.points)\n",
       "        if not len(self.points):\n"
